@@ -56,6 +56,10 @@ pub enum ExtraKind {
     IncludeListFirstMissing,
     IncludeMissingIgnored,
     IncludeListAllMissingIgnored,
+    /// `ignore missing` on a list whose first entries are missing and a later one exists
+    IncludeListFirstMissingIgnored,
+    /// the included template declares no blocks itself but extends a layout that does
+    IncludeThinChild,
     /// the included template has an inheritance chain of its own that reuses block name `a`
     IncludeWithOwnChain,
     Import,
@@ -147,6 +151,8 @@ fn helper_templates() -> BTreeMap<String, Vec<Stmt>> {
             },
         ],
     );
+    // extends a layout with blocks, declares none itself
+    m.insert("inc3.txt".to_string(), vec![Stmt::Extends(s("incbase.txt")), text("DISCARDED3"), Stmt::Set { target: Target::Name("thin".into()), value: s("T") }]);
     m.insert(
         "mod.txt".to_string(),
         vec![
@@ -199,6 +205,16 @@ fn extra_stmts(kind: ExtraKind, k: usize, in_macro: bool) -> Vec<Stmt> {
             text(">"),
         ],
         ExtraKind::IncludeWithOwnChain => vec![Stmt::Include { name: s("inc2.txt"), ignore_missing: false }],
+        ExtraKind::IncludeListFirstMissingIgnored => vec![
+            text("<"),
+            Stmt::Include { name: Expr::List(vec![s("missing1.txt"), s("missing2.txt"), s(inc)]), ignore_missing: true },
+            text(">"),
+        ],
+        ExtraKind::IncludeThinChild => vec![
+            Stmt::Include { name: s("inc3.txt"), ignore_missing: false },
+            text("+"),
+            Stmt::Include { name: s("inc3.txt"), ignore_missing: false },
+        ],
         ExtraKind::Import => vec![
             Stmt::Import { name: s("mod.txt"), alias: h.clone() },
             Stmt::Emit(Expr::Call(Box::new(attr(v(&h), "m1")), vec![Arg::Pos(v("cv"))])),
@@ -509,6 +525,8 @@ fn labels_for(case: &ChainCase, v: &mut Verdict) {
                     | ExtraKind::IncludeMissingIgnored
                     | ExtraKind::IncludeListAllMissingIgnored
                     | ExtraKind::IncludeWithOwnChain
+                    | ExtraKind::IncludeListFirstMissingIgnored
+                    | ExtraKind::IncludeThinChild
             )
         })
     }) {
@@ -544,6 +562,8 @@ fn extra_strategy() -> BoxedStrategy<Option<Extra>> {
         1 => Just(ExtraKind::IncludeMissingIgnored),
         1 => Just(ExtraKind::IncludeListAllMissingIgnored),
         2 => Just(ExtraKind::IncludeWithOwnChain),
+        2 => Just(ExtraKind::IncludeListFirstMissingIgnored),
+        2 => Just(ExtraKind::IncludeThinChild),
         3 => Just(ExtraKind::Import),
         3 => Just(ExtraKind::FromImport),
         1 => Just(ExtraKind::FromImportUnknownName),
